@@ -511,28 +511,58 @@ struct Site {
 struct SiteScan<'a> {
     func: String,
     sites: Vec<Site>,
-    /// guard identifier → index into `sites` (latest binding wins)
-    guards: BTreeMap<String, usize>,
+    /// guard identifier → indices into `sites`: every acquisition bound to that
+    /// name anywhere in the function (a use of the name counts for all of them)
+    guards: BTreeMap<String, Vec<usize>>,
     raw_names: &'a [String],
     helpers: &'a Helpers,
     errors: Vec<String>,
 }
 
+/// wrappers through which an expression still denotes the guard / the list behind it
+const TRANSPARENT: &[&str] = &[
+    "unwrap", "expect", "unwrap_or", "unwrap_or_else", "as_ref", "as_deref", "deref", "borrow", "as_mut", "as_deref_mut",
+    "deref_mut", "borrow_mut",
+];
+const TRANSPARENT_MUT: &[&str] = &["as_mut", "as_deref_mut", "deref_mut", "borrow_mut"];
+/// constructors that only wrap the guard (`Some(b)`), and `drop`
+const WRAPPERS: &[&str] = &["Some", "Ok", "drop", "std::mem::drop", "mem::drop"];
+
 impl SiteScan<'_> {
-    fn guard_of(&self, e: &syn::Expr) -> Option<usize> {
+    /// the guard an expression denotes, through parentheses, `*`, `&`, and transparent wrappers
+    fn guard_of(&self, e: &syn::Expr) -> Option<Vec<usize>> {
         match e {
-            syn::Expr::Path(p) => p.path.get_ident().and_then(|i| self.guards.get(&i.to_string()).copied()),
+            syn::Expr::Path(p) => p.path.get_ident().and_then(|i| self.guards.get(&i.to_string()).cloned()),
             syn::Expr::Paren(p) => self.guard_of(&p.expr),
             syn::Expr::Unary(u) if matches!(u.op, syn::UnOp::Deref(_)) => self.guard_of(&u.expr),
+            syn::Expr::Reference(r) => self.guard_of(&r.expr),
+            syn::Expr::MethodCall(m) if TRANSPARENT.contains(&m.method.to_string().as_str()) => self.guard_of(&m.receiver),
             _ => None,
         }
     }
-    fn root_guard(&self, e: &syn::Expr) -> Option<usize> {
+    fn root_guard(&self, e: &syn::Expr) -> Option<Vec<usize>> {
         match e {
             syn::Expr::Field(f) => self.root_guard(&f.base),
             syn::Expr::Index(i) => self.root_guard(&i.expr),
             other => self.guard_of(other),
         }
+    }
+    fn mark_mut(&mut self, idxs: &[usize]) {
+        for &i in idxs {
+            self.sites[i].mut_borrow = true;
+        }
+    }
+}
+
+fn pat_idents(p: &syn::Pat, out: &mut Vec<String>) {
+    match p {
+        syn::Pat::Ident(pi) => out.push(pi.ident.to_string()),
+        syn::Pat::Tuple(t) => t.elems.iter().for_each(|e| pat_idents(e, out)),
+        syn::Pat::TupleStruct(t) => t.elems.iter().for_each(|e| pat_idents(e, out)),
+        syn::Pat::Type(t) => pat_idents(&t.pat, out),
+        syn::Pat::Reference(r) => pat_idents(&r.pat, out),
+        syn::Pat::Paren(r) => pat_idents(&r.pat, out),
+        _ => {}
     }
 }
 
@@ -543,13 +573,13 @@ impl<'ast> Visit<'ast> for SiteScan<'_> {
             if let Some(mode) = lock_mode(&init.expr, self.helpers) {
                 // the receiver expression of the lock call is evaluated first
                 syn::visit::visit_expr(self, &init.expr);
-                // visiting registered a direct (unnamed) site for this chain: rename it
+                // visiting registered a direct (unnamed) site for this chain: name it
                 let idx = self.sites.len() - 1;
                 debug_assert_eq!(self.sites[idx].mode, mode);
                 match &l.pat {
                     syn::Pat::Ident(pi) => {
                         self.sites[idx].guard = pi.ident.to_string();
-                        self.guards.insert(pi.ident.to_string(), idx);
+                        self.guards.entry(pi.ident.to_string()).or_default().push(idx);
                     }
                     other => self.errors.push(format!(
                         "{}: lock guard bound by a pattern outside the subset: {}",
@@ -560,16 +590,62 @@ impl<'ast> Visit<'ast> for SiteScan<'_> {
                 return;
             }
         }
-        // a shadowing `let x = …` of a guard name ends that guard's scope for our purposes
-        if let syn::Pat::Ident(pi) = &l.pat {
-            let n = pi.ident.to_string();
-            if let Some(init) = &l.init {
-                syn::visit::visit_expr(self, &init.expr);
+        match &l.pat {
+            // `let x = <something else>` shadows a guard of that name
+            syn::Pat::Ident(pi) => {
+                let n = pi.ident.to_string();
+                if let Some(init) = &l.init {
+                    syn::visit::visit_expr(self, &init.expr);
+                    // … unless it merely re-wraps the guard (`let b = Some(b)`)
+                    if self.guard_of(&init.expr).is_some() {
+                        return;
+                    }
+                }
+                self.guards.remove(&n);
             }
-            self.guards.remove(&n);
-            return;
+            // `let (a, b) = if … { let x = p.0.lock().unwrap(); …; (x, Some(y)) } else { … }`:
+            // the names bound inside the branches stay guards under their names, and every name
+            // of the pattern may denote any acquisition made inside the initialiser
+            other => {
+                let before = self.sites.len();
+                syn::visit::visit_local(self, l);
+                let mut fresh: Vec<usize> = (before..self.sites.len()).collect();
+                // … or any guard the initialiser mentions (`let (this, other) = if swap { (second, first) } else { … }`)
+                if let Some(init) = &l.init {
+                    struct Idents(Vec<String>);
+                    impl<'a> Visit<'a> for Idents {
+                        fn visit_expr_path(&mut self, p: &'a syn::ExprPath) {
+                            if let Some(i) = p.path.get_ident() {
+                                self.0.push(i.to_string());
+                            }
+                        }
+                    }
+                    let mut ids = Idents(vec![]);
+                    ids.visit_expr(&init.expr);
+                    for n in ids.0 {
+                        if let Some(v) = self.guards.get(&n) {
+                            for i in v {
+                                if !fresh.contains(i) {
+                                    fresh.push(*i);
+                                }
+                            }
+                        }
+                    }
+                }
+                if !fresh.is_empty() {
+                    let mut names = vec![];
+                    pat_idents(other, &mut names);
+                    for n in names {
+                        let e = self.guards.entry(n).or_default();
+                        for i in &fresh {
+                            if !e.contains(i) {
+                                e.push(*i);
+                            }
+                        }
+                    }
+                }
+            }
         }
-        syn::visit::visit_local(self, l);
     }
     fn visit_expr_method_call(&mut self, m: &'ast syn::ExprMethodCall) {
         let name = m.method.to_string();
@@ -586,11 +662,19 @@ impl<'ast> Visit<'ast> for SiteScan<'_> {
         if direct {
             syn::visit::visit_expr(self, &m.receiver);
             let idx = self.sites.len() - 1;
-            if name != "unwrap" && name != "expect" && name != "unwrap_or_else" {
+            if !TRANSPARENT.contains(&name.as_str()) {
                 self.sites[idx].calls.push(name.clone());
             }
-        } else if let Some(idx) = self.guard_of(&m.receiver) {
-            self.sites[idx].calls.push(name.clone());
+        } else if let Some(idxs) = self.guard_of(&m.receiver) {
+            if TRANSPARENT.contains(&name.as_str()) {
+                if TRANSPARENT_MUT.contains(&name.as_str()) {
+                    self.mark_mut(&idxs);
+                }
+            } else {
+                for i in idxs {
+                    self.sites[i].calls.push(name.clone());
+                }
+            }
         } else {
             syn::visit::visit_expr(self, &m.receiver);
         }
@@ -600,27 +684,29 @@ impl<'ast> Visit<'ast> for SiteScan<'_> {
     }
     fn visit_expr_reference(&mut self, r: &'ast syn::ExprReference) {
         if r.mutability.is_some() {
-            if let Some(idx) = self.root_guard(&r.expr) {
-                self.sites[idx].mut_borrow = true;
+            if let Some(idxs) = self.root_guard(&r.expr) {
+                self.mark_mut(&idxs);
             }
         }
         syn::visit::visit_expr_reference(self, r);
     }
     fn visit_expr_assign(&mut self, a: &'ast syn::ExprAssign) {
-        if let Some(idx) = self.root_guard(&a.left) {
-            self.sites[idx].mut_borrow = true;
+        if let Some(idxs) = self.root_guard(&a.left) {
+            self.mark_mut(&idxs);
         }
         syn::visit::visit_expr_assign(self, a);
     }
     fn visit_expr_call(&mut self, c: &'ast syn::ExprCall) {
-        // a guard moved into a function other than `drop` leaves the subset
+        // a guard moved (by value) into a function other than a wrapper / `drop` leaves the subset;
+        // `f(&guard)` is a read, `f(&mut guard)` is caught by visit_expr_reference
         let f = c.func.to_token_stream().to_string().replace(' ', "");
         for a in &c.args {
-            if let Some(idx) = self.guard_of(a) {
-                if f != "drop" && f != "std::mem::drop" && f != "mem::drop" {
+            let by_value = !matches!(a, syn::Expr::Reference(_));
+            if by_value && !WRAPPERS.contains(&f.as_str()) {
+                if let Some(idxs) = self.guard_of(a) {
                     self.errors.push(format!(
                         "{}: lock guard `{}` handed to `{f}` by value (outside the subset)",
-                        self.func, self.sites[idx].guard
+                        self.func, self.sites[idxs[0]].guard
                     ));
                 }
             }
